@@ -143,6 +143,11 @@ func c02Inputs(c *Ctx, cfg wcfg, i int64, g *prng.Rng) []inputSpec {
 			in = append(in, inputSpec{"multi-block-exact", mk(2 * bm)})
 		}
 	}
+	if bm <= 256<<10 || thorough {
+		// a stored (incompressible) block followed by compressible ones, and the other way round
+		in = append(in, inputSpec{"raw-then-compressible", append(g.Bytes(bm), gen.Text(g, c.Repo, bm+bm/3)...)},
+			inputSpec{"compressible-then-raw", append(gen.Text(g, c.Repo, bm), g.Bytes(bm/2+7)...)})
+	}
 	in = append(in, inputSpec{"incompressible", g.Bytes(minInt(bm+bm/2, 300000) + g.N(100))}, inputSpec{"highly-compressible", bytes.Repeat([]byte("ab"), minInt(bm, 1<<20)/2+g.N(50))})
 	if cfg.bc {
 		in = append(in, inputSpec{"block-xxh32-zero", zeroSumData(g, 500+g.N(3000))})
